@@ -8,7 +8,7 @@ open Wire Idl Introspect DriverIdl
 
 def sb (s : String) : In := s.toUTF8.toList
 
-def docsOf (t : String) : List In := if t = "-" then [] else (t.splitOn ",").map unhex
+def docsOf (t : String) : List In := if t = "-" then [] else (t.splitOn ",").map fun d => if d = "_" then [] else unhex d
 
 /-- `ctor(arg)` / `@i` / atom -/
 partial def parseRT (s : String) : RT :=
